@@ -29,6 +29,7 @@ static File* openModelFile(bool withContent)
 }
 extern "C" void harness(void)
 {
+	vio_bind();
 #if OP == 0
 	unsigned long v = nondet_ulong();
 	ByteString b(v);
